@@ -50,6 +50,7 @@ type Engine struct {
 	lemmas     []*Lemma
 	globals    map[string]*GhostGlobal
 	dropped    map[string]bool
+	opaque     map[string]bool
 	sortSpecs  map[string]string
 	typeTags   map[string]int
 	tagOrder   []string
@@ -79,7 +80,7 @@ func newEngine() *Engine {
 		pkgs: map[string]*packages.Package{}, shapes: map[string]*Shape{}, fieldNames: map[string]bool{}, typedFields: map[string]bool{},
 		decls: map[string]string{}, strLits: map[string]string{}, contracts: map[string]*Contract{},
 		specFuncs: map[string]*SpecFunc{}, consts: map[string]string{}, globals: map[string]*GhostGlobal{},
-		dropped: map[string]bool{}, typeTags: map[string]int{}, notes: map[string]bool{}, assumed: map[string]bool{},
+		dropped: map[string]bool{}, opaque: map[string]bool{}, typeTags: map[string]int{}, notes: map[string]bool{}, assumed: map[string]bool{},
 		sortSpecs: map[string]string{}, uf: map[string]bool{},
 	}
 }
